@@ -30,8 +30,9 @@ func init() {
 			{PkgPath: goosePkg, Func: "verifC08HeaderFooter", Opt: big},
 			{PkgPath: goosePkg, Func: "verifC08ImportSpecs", Opt: big},
 		},
+		Custom: headerEndToEnd,
 		Covers: []string{"c08/pathmap", "c08/outpath", "c08/require", "c08/printimports", "c08/layout", "c08/getffi", "c08/headerfooter", "c08/importspecs"},
-		Bounds: "import paths: every byte string of length 1..4 (quick) / 1..6 (thorough) that is a valid import path (non-empty segments), all bytes symbolic; import lists ≤ 4 drawn from a pool with repetition in any order; import graphs: root + 3 (quick) / 4 (thorough) packages with paths from a pool of 7 (all five FFI keys, a non-FFI builtin, a plain package), every acyclic edge set; every FFI value for header/footer; ≤ 3 import specs from a pool of 10 paths, optionally renamed",
+		Bounds: "end to end: seven small multi-package programs (no import, one and two user packages, disk FFI direct and through an imported package, sync+machine only, two files importing the same package) translated by the real goose, header lines compared with the expected set; import paths: every byte string of length 1..4 (quick) / 1..6 (thorough) that is a valid import path (non-empty segments), all bytes symbolic; import lists ≤ 4 drawn from a pool with repetition in any order; import graphs: root + 3 (quick) / 4 (thorough) packages with paths from a pool of 7 (all five FFI keys, a non-FFI builtin, a plain package), every acyclic edge set; every FFI value for header/footer; ≤ 3 import specs from a pool of 10 paths, optionally renamed",
 		Assumptions: []string{
 			"internal/bytealg assembly kernels are intrinsics with reference semantics; strings/path/filepath/sort/bytes run from their real SSA",
 			"errorReporter.printGo (go/printer) is stubbed in the import-spec harness",
